@@ -75,8 +75,9 @@ def main():
     ap.add_argument("--root", default="/tmp/mt")
     ap.add_argument("--out", default=os.path.join(HERE, "results.jsonl"))
     ap.add_argument("--only", default=None, help="substring of file names to restrict to")
+    ap.add_argument("--ops", default=None, help="comma-separated operators to restrict to")
     a = ap.parse_args()
-    rc, listing = sh(f"{PY} {HERE}/mutate.py list --per-file {a.per_file} --seed {a.seed}")
+    rc, listing = sh(f"{PY} {HERE}/mutate.py list --per-file {a.per_file} --seed {a.seed}" + (f" --ops {a.ops}" if a.ops else ""))
     muts = [json.loads(l) for l in listing.splitlines() if l.startswith("{")]
     if a.only:
         muts = [m for m in muts if a.only in m["file"]]
